@@ -28,6 +28,8 @@ typedef struct {
     int ntask;      /* tasklets on ES1 calling ABT_barrier_wait once */
 } cfg_t;
 
+/* NOTE: registry/C08.json names configs 0-3 by index for its P=3 runs; keep
+ * them first.  Quick configs are ordered cheap first. */
 static const cfg_t cfgs[] = {
     /* ------------------------------------------------------------ quick */
     { "n=2 r=2: U0 + U1", 1, 2, { K_U0, K_U1 }, 2, { 2, 2 }, 0, 0 },
